@@ -53,9 +53,19 @@ class C18(Hist1Prop):
     FIELDS = {"bins", "freq", "err2", "under", "over", "inner", "total", "dtype", "keep"}
 
     def gen_case(self, rng, k, tier):
-        ops, tags = history1.history(rng, nops=(2, 9), invalid_share=0.35)
+        # a quarter of the histories start from contents / squared errors near the limits of the narrow types, so that
+        # refused (and wrongly accepted) dtype changes are part of the histories too
+        focus = rng.random() < 0.25
+        ops, tags = history1.history(rng, nops=(2, 9), invalid_share=0.35, dtype_focus=focus)
+        if focus:
+            tags = tags + ["dtype_focus"]
         tol = any(o["op"] in ("normalize",) for o in ops)
-        return {"kind": "hist1", "ops": ops, "tags": tags, "tolerance": tol}
+        return {"kind": "hist1", "ops": ops, "tags": tags, "tolerance": tol or focus}   # narrow types round their input
+
+    def fields_for(self, case):
+        # numpy sums a narrow float / int array in its own type: the total of values near the type's limit is rounded
+        # (or inf); contents and errors themselves are still compared exactly
+        return self.FIELDS - {"total"} if "dtype_focus" in case.get("tags", []) else self.FIELDS
 
     def shrink_candidates(self, case):
         ops = case["ops"]
